@@ -701,6 +701,7 @@ func main() {
 	}
 	fuzzStreams(r, env, names)
 	deafStage(r, env, names[0], convs)
+	cliAbort(r, env)
 	afterFailedPhase1(r, env)
 	helperStage(r, env, names[0], convs)
 	if hangs.Load() >= 3 {
